@@ -6,6 +6,7 @@ Decides (DESIGN.md §3 C20): attribute walks advance from the current element (I
 per-handler consumption, ULEB operand loop.
 """
 import ast
+from sa.canon import U
 from sa.world import get_world
 from sa import elfconf, layout, expr, paths, streams, dispatch, literals, hrules
 from sa.absint import FuncV, Node, Unknown
@@ -107,7 +108,7 @@ def check_walks(ctx, w):
         ok = len(whiles) == 1 and expr.cond_str(whiles[0].test, env) in (expr.spec_cond('%s != end' % var), expr.spec_cond('%s < end' % var))
         ctx.ob('I-REL', f.construct, 'walk until the end of the block', ok)
         body = whiles[0].body if whiles else []
-        kinds = [ast.unparse(s).split('=')[0].strip() if isinstance(s, (ast.Assign, ast.AugAssign)) else type(s).__name__ for s in body]
+        kinds = [U(s).split('=')[0].strip() if isinstance(s, (ast.Assign, ast.AugAssign)) else type(s).__name__ for s in body]
         ctx.ob('I-REL', f.construct, 'element built at the position, position advanced, then yielded', len(body) == 3 and isinstance(body[0], ast.Assign) and
                expr.nfs(body[0].value, env) == ctor and isinstance(body[1], ast.AugAssign) and isinstance(body[2], ast.Expr) and isinstance(body[2].value, ast.Yield),
                got=[expr.nfs(body[0].value, env) if body and isinstance(body[0], ast.Assign) else None, kinds])
@@ -118,13 +119,13 @@ def check_walks(ctx, w):
            got=tr.get('offset'))
     ctx.ob('I-REL', f.construct, 'end = offset + size in the header', tr.get('end') == [('=', expr.spec_nf('offset + value'))], got=tr.get('end'))
     whiles = [n for n in ast.walk(f.node) if isinstance(n, ast.While)]
-    body = [ast.unparse(s) for s in whiles[0].body] if whiles else []
+    body = [U(s) for s in whiles[0].body] if whiles else []
     ctx.ob('I-REL', f.construct, 'seek, parse, remember position, yield', body == ['self.stream.seek(offset)', 'attribute = self.attribute(self.structs, self.stream)',
                                                                                   'offset = self.stream.tell()', 'yield attribute'], got=body)
     g = w.model.func(SEC, 'AttributesSubsubsection.__init__')
     ops = [o.t() for o in streams.func_ops(g.node, expr.FEnv(g.node, params=('stream', 'structs', 'offset', 'attribute'), inline=False))]
     ctx.ob('I-REL', g.construct, 'header parsed at the sub-subsection\'s own offset; attributes start right after it',
-           ops == [('seek', 'stream', 'offset', 'SEEK_SET'), ('tell', 'stream')] and 'self.header = self.attribute(self.structs, self.stream)' in ast.unparse(g.node), got=ops)
+           ops == [('seek', 'stream', 'offset', 'SEEK_SET'), ('tell', 'stream')] and 'self.header = self.attribute(self.structs, self.stream)' in U(g.node), got=ops)
     g = w.model.func(SEC, 'AttributesSubsection.__init__')
     ops = [o.t() for o in streams.func_ops(g.node, expr.FEnv(g.node, params=('stream', 'structs', 'offset', 'header', 'subsubsection'), inline=False))]
     ctx.ob('I-REL', g.construct, 'subsection header parsed at its offset', ops == [('parse', 'stream', 'header', 'offset'), ('tell', 'stream')], got=ops)
@@ -138,7 +139,7 @@ def check_walks(ctx, w):
                      ('ARMAttributesSubsection', 'ARMAttributesSubsubsection'), ('RISCVAttributesSubsection', 'RISCVAttributesSubsubsection'),
                      ('ARMAttributesSubsubsection', 'ARMAttribute'), ('RISCVAttributesSubsubsection', 'RISCVAttribute')):
         h = w.model.func(SEC, cls + '.__init__')
-        ctx.ob('I-REL', h.construct, 'element class ' + sub, ast.unparse(h.node).rstrip(')').endswith(sub), got=ast.unparse(h.node)[-60:])
+        ctx.ob('I-REL', h.construct, 'element class ' + sub, U(h.node).rstrip(')').endswith(sub), got=U(h.node)[-60:])
 
 
 def check_tag_enums(ctx, w):
@@ -159,10 +160,10 @@ def _kind_of(body, env, cls):
     sig = []
     mod = ast.Module(body=body, type_ignores=[])
     for st in body:
-        if isinstance(st, ast.Assign) and ast.unparse(st.targets[0]) in ('self.value', 'self.extra'):
+        if isinstance(st, ast.Assign) and U(st.targets[0]) in ('self.value', 'self.extra'):
             v = st.value
             if isinstance(v, ast.Call) and dispatch.callee_name(v) == 'struct_parse':
-                a = ast.unparse(v.args[0]).replace('\n', '').replace(' ', '')
+                a = U(v.args[0]).replace('\n', '').replace(' ', '')
                 if a.startswith('structs.Elf_word('):
                     sig.append('word')
                 elif a.startswith('structs.Elf_uleb128('):
@@ -174,13 +175,13 @@ def _kind_of(body, env, cls):
             elif isinstance(v, ast.Call) and dispatch.callee_name(v) == cls:
                 sig.append('nested')
         elif isinstance(st, ast.If):
-            t = ast.unparse(st.test)
+            t = U(st.test)
             if t == "self.tag != 'TAG_FILE'":
-                src = ast.unparse(st)
+                src = U(st)
                 if 'while s_number != 0:' in src and src.count("struct_parse(structs.Elf_uleb128('s_number'), stream)") == 2 and 'self.extra.append(s_number)' in src:
                     sig.append('uleb-list?')      # applies to the non-FILE keys of the branch
             elif t == 'type(self.value.value) is not str':
-                src = ast.unparse(st)
+                src = U(st)
                 if "struct_parse(structs.Elf_byte('nul'), stream)" in src and 'elf_assert(nul == 0' in src:
                     sig.append('+nul-after-integer')
     return sig
@@ -215,7 +216,7 @@ def check_tags(ctx, w, cls, kinds, enum_name):
     ctx.ob('G-SIG', f.construct, 'all other tags are ULEB128', else_sig == ['uleb'], got=else_sig)
     for k in sorted(set(got) - set(kinds)):
         ctx.ob('G-SIG', f.construct, 'extra non-ULEB tag %s' % k, False, got=got[k], msg='a tag the ABI defines as ULEB128 is decoded differently')
-    first = ast.unparse(f.node.body[0]) if not isinstance(f.node.body[0].value, ast.Constant) else ast.unparse(f.node.body[1])
+    first = U(f.node.body[0]) if not isinstance(f.node.body[0].value, ast.Constant) else U(f.node.body[1])
     st = 'Elf_Arm_Attribute_Tag' if cls == 'ARMAttribute' else 'Elf_RiscV_Attribute_Tag'
     ctx.ob('G-SIG', f.construct, 'tag parsed first with ' + st, first == 'super().__init__(struct_parse(structs.%s, stream))' % st, got=first)
 
@@ -242,29 +243,29 @@ def check_entries(ctx, w):
     # decision tree: every returning path as (conditions, constructor)
     got = []
     for conds, ret, p in paths.returns_with_conds(f.node):
-        cs = tuple((expr.cond_str(t, env), pol) for t, pol in conds if 'num_entry' not in ast.unparse(t))
-        ctor = dispatch.callee_name(ret) if isinstance(ret, ast.Call) else ast.unparse(ret)
+        cs = tuple(expr.CP(expr.cond_str(t, env), pol) for t, pol in conds if 'num_entry' not in U(t))
+        ctor = dispatch.callee_name(ret) if isinstance(ret, ast.Call) else U(ret)
         got.append((cs, ctor))
     W0 = lambda m: expr.spec_cond('word0 & %s != 0' % m)
-    c_corrupt0 = (expr.spec_cond('word0 & 0x80000000 != 0'), True)
+    c_corrupt0 = expr.CP(expr.spec_cond('word0 & 0x80000000 != 0'), True)
     spec = [
         ((c_corrupt0,), 'CorruptEHABIEntry'),
-        (((c_corrupt0[0], False), (expr.spec_cond('word1 == 1'), True)), 'CannotUnwindEHABIEntry'),
+        ((expr.neg(c_corrupt0), expr.CP(expr.spec_cond('word1 == 1'), True)), 'CannotUnwindEHABIEntry'),
     ]
-    t_table = (expr.spec_cond('word1 & 0x80000000 == 0'), True)
-    base = ((c_corrupt0[0], False), (expr.spec_cond('word1 == 1'), False))
-    t_generic = (expr.spec_cond('word0 & 0x80000000 == 0'), True)
-    t_res = (expr.spec_cond('word0 & 0x70000000 != 0'), True)
-    p0 = (expr.spec_cond('per_index == 0'), True)
-    p12 = (expr.spec_cond('per_index == 1 or per_index == 2'), True)
+    t_table = expr.CP(expr.spec_cond('word1 & 0x80000000 == 0'), True)
+    base = (expr.neg(c_corrupt0), expr.CP(expr.spec_cond('word1 == 1'), False))
+    t_generic = expr.CP(expr.spec_cond('word0 & 0x80000000 == 0'), True)
+    t_res = expr.CP(expr.spec_cond('word0 & 0x70000000 != 0'), True)
+    p0 = expr.CP(expr.spec_cond('per_index == 0'), True)
+    p12 = expr.CP(expr.spec_cond('per_index == 1 or per_index == 2'), True)
     spec += [
         (base + (t_table, t_generic), 'GenericEHABIEntry'),
-        (base + (t_table, (t_generic[0], False), t_res), 'CorruptEHABIEntry'),
-        (base + (t_table, (t_generic[0], False), (t_res[0], False), p0), 'EHABIEntry'),
-        (base + (t_table, (t_generic[0], False), (t_res[0], False), (p0[0], False), p12), 'EHABIEntry'),
-        (base + (t_table, (t_generic[0], False), (t_res[0], False), (p0[0], False), (p12[0], False)), 'CorruptEHABIEntry'),
-        (base + ((t_table[0], False), (expr.spec_cond('word1 & 0x7f000000 != 0'), True)), 'CorruptEHABIEntry'),
-        (base + ((t_table[0], False), (expr.spec_cond('word1 & 0x7f000000 != 0'), False)), 'EHABIEntry'),
+        (base + (t_table, expr.neg(t_generic), t_res), 'CorruptEHABIEntry'),
+        (base + (t_table, expr.neg(t_generic), expr.neg(t_res), p0), 'EHABIEntry'),
+        (base + (t_table, expr.neg(t_generic), expr.neg(t_res), expr.neg(p0), p12), 'EHABIEntry'),
+        (base + (t_table, expr.neg(t_generic), expr.neg(t_res), expr.neg(p0), expr.neg(p12)), 'CorruptEHABIEntry'),
+        (base + (expr.neg(t_table), expr.CP(expr.spec_cond('word1 & 0x7f000000 != 0'), True)), 'CorruptEHABIEntry'),
+        (base + (expr.neg(t_table), expr.CP(expr.spec_cond('word1 & 0x7f000000 != 0'), False)), 'EHABIEntry'),
     ]
     gotset = set(got)
     # loop in the model-1/2 path adds loop events but no conditions; de-duplicate
@@ -329,7 +330,7 @@ def _consumption(w, fv, cls_attrs, depth=0):
         n = 0
         leb = False
         for ev in p.events:
-            if ev[0] == 'stmt' and isinstance(ev[1], ast.AugAssign) and ast.unparse(ev[1].target) == 'self._index' and isinstance(ev[1].op, ast.Add) and \
+            if ev[0] == 'stmt' and isinstance(ev[1], ast.AugAssign) and U(ev[1].target) == 'self._index' and isinstance(ev[1].op, ast.Add) and \
                     isinstance(ev[1].value, ast.Constant):
                 n += ev[1].value.value
             if ev[0] == 'loop' and isinstance(ev[1], ast.While):
@@ -384,7 +385,7 @@ def check_ring(ctx, w):
                msg='handler does not advance the index by the instruction length on every path')
     # decode loop: first match, handler called, slice recorded
     f = w.model.func(DEC, 'EHABIBytecodeDecoder._decode')
-    src = ast.unparse(f.node)
+    src = U(f.node)
     ctx.ob('G-RING', f.construct, 'first-match dispatch over the ring on the current byte',
            'for mask, value, handler in self.ring:' in src.replace('(mask, value, handler)', 'mask, value, handler') and 'if self._bytecode_array[self._index] & mask == value:' in src and 'break' in src and
            'while self._index < len(self._bytecode_array):' in src)
@@ -398,27 +399,27 @@ def check_ring(ctx, w):
     why = None
     if len(whiles) == 1:
         lp = whiles[0]
-        body = [ast.unparse(s) for s in lp.body]
+        body = [U(s) for s in lp.body]
         # accepted shape: while True: b = arr[idx]; idx += 1; buf.append(b); if b & 0x80 == 0: break
         if isinstance(lp.test, ast.Constant) and lp.test.value is True:
-            reads = [s for s in lp.body if isinstance(s, ast.Assign) and ast.unparse(s.value) == 'self._bytecode_array[self._index]']
-            incs = [s for s in lp.body if isinstance(s, ast.AugAssign) and ast.unparse(s) == 'self._index += 1']
+            reads = [s for s in lp.body if isinstance(s, ast.Assign) and U(s.value) == 'self._bytecode_array[self._index]']
+            incs = [s for s in lp.body if isinstance(s, ast.AugAssign) and U(s) == 'self._index += 1']
             brk = [s for s in lp.body if isinstance(s, ast.If) and any(isinstance(x, ast.Break) for x in s.body)]
             if len(reads) == 1 and len(incs) == 1 and len(brk) == 1:
-                bname = ast.unparse(reads[0].targets[0])
+                bname = U(reads[0].targets[0])
                 t = expr.cond_str(brk[0].test, genv)
                 accepted = set([expr.spec_cond('%s & 0x80 == 0' % bname), expr.spec_cond('not %s & 0x80' % bname), expr.spec_cond('%s < 0x80' % bname)])
                 ok = t in accepted and lp.body.index(reads[0]) < lp.body.index(brk[0])
                 why = t
         else:
-            why = 'loop tests %s' % ast.unparse(lp.test)
+            why = 'loop tests %s' % U(lp.test)
     ctx.ob('G-RING', g.construct, 'ULEB operand: continue while the byte just consumed has bit 7 set', ok, got=why,
            msg='the operand ends with the first byte whose bit 7 is clear; testing the NEXT byte (or the opposite polarity) mis-sizes the instruction',
            line=g.node.lineno)
     tr = expr.assign_trace(g.node, genv)
     ctx.ob('G-RING', g.construct, 'value: 7 bits per byte, least significant group first', tr.get('value') == [('=', '0'), ('=', expr.spec_nf('(value << 7) + (b & 0x7F)'))] and
-           'for b in reversed(uleb_buffer):' in ast.unparse(g.node), got=tr.get('value'))
-    rets = [ast.unparse(r.value) for r in expr.returns_of(g.node)]
+           'for b in reversed(uleb_buffer):' in U(g.node), got=tr.get('value'))
+    rets = [U(r.value) for r in expr.returns_of(g.node)]
     ctx.ob('G-RING', g.construct, 'vsp += 0x204 + (value << 2)', rets == ["'vsp = vsp + %u' % (516 + (value << 2))"], got=rets)
 
 
